@@ -496,16 +496,13 @@ Section WasmFacts.
       split; [exact E|]. intros t lang. apply lint_congr; try reflexivity. exact E.
   Qed.
 
-  (* ---------- the two facts about harper-core the full-strength clauses rest on (premises of the
-     theorems that use them; both are monitored on the real code by the harness) ---------- *)
-  (* the explicit choice a configuration makes for a rule: LintGroupConfig::is_rule_enabled reads
-     `inner.get(key).cloned().flatten()`, so a null entry and an absent entry are the same thing to the rules *)
+  (* the explicit choice a configuration makes for a rule (what merge_from copies; a null entry and an
+     absent entry both make none) *)
   Definition explicit (k : N) (c : config) : option bool :=
     match aget k c with Some (Some b) => Some b | _ => None end.
   Definition cfg_equiv (c c' : config) : Prop := forall k, explicit k c = explicit k c'.
-  (* LintGroup::lint reads its configuration only through is_rule_enabled *)
-  Definition raw_reads_choices_only : Prop :=
-    forall t lang c c' d dia, cfg_equiv c c' -> raw_lints t lang c d dia = raw_lints t lang c' d dia.
+  (* ---------- the fact about harper-core the full-strength ignore clause rests on (a premise of the
+     theorem that uses it; monitored on the real code by the harness) ---------- *)
   (* LintContext::from_lint blanks the dictionary metadata of the word tokens (fix 483b7cf), and the
      dictionary enters a Document only through that metadata: the context hash is the same under every
      user dictionary *)
@@ -795,22 +792,27 @@ Section WasmFacts.
     destruct (aget k curated) eqn:E; [split; [reflexivity|now left]|]. split; [reflexivity|]. right. auto.
   Qed.
 
-  (* ---------- lint reads the configuration through the explicit choices ---------- *)
-  Lemma fill_equiv c c' : amap_sorted c -> amap_sorted c' -> cfg_equiv c c' ->
-    cfg_equiv (cfg_fill_with_curated curated c) (cfg_fill_with_curated curated c').
+  (* ---------- lint reads the stored configuration through the explicit choices: fill_with_curated starts
+     from the curated configuration and copies only the Some entries, so null / absent entries of the
+     stored configuration leave no trace in the configuration the rules see ---------- *)
+  Lemma fill_equiv c c' : amap_sorted curated -> amap_sorted c -> amap_sorted c' -> cfg_equiv c c' ->
+    cfg_fill_with_curated curated c = cfg_fill_with_curated curated c'.
   Proof.
-    intros S S' E k. unfold cfg_fill_with_curated. rewrite !explicit_merge by assumption. now rewrite (E k).
+    intros SC S S' E. unfold cfg_fill_with_curated. apply amap_ext; try (now apply cfg_merge_sorted).
+    intros k. rewrite !aget_cfg_merge_from by (now apply sorted_nodup).
+    specialize (E k). unfold explicit in E.
+    destruct (aget k c) as [[v|]|], (aget k c') as [[v'|]|]; try reflexivity; try discriminate; congruence.
   Qed.
 
   Lemma lint_congr_cfg st1 st2 t lang :
-    raw_reads_choices_only ->
+    amap_sorted curated ->
     amap_sorted (s_cfg st1) -> amap_sorted (s_cfg st2) -> cfg_equiv (s_cfg st1) (s_cfg st2) ->
     s_lint_dict st1 = s_lint_dict st2 -> s_dialect st1 = s_dialect st2 ->
     (forall h, hmem h (s_ignored st1) = hmem h (s_ignored st2)) ->
     lint st1 t lang = lint st2 t lang.
   Proof.
-    intros HR S1 S2 E Hd Hdi Hi. unfold api_lint, Wasm.lint_kept.
-    rewrite (HR t lang _ _ (s_lint_dict st1) (s_dialect st1) (fill_equiv _ _ S1 S2 E)).
+    intros SC S1 S2 E Hd Hdi Hi. unfold api_lint, Wasm.lint_kept.
+    rewrite (fill_equiv _ _ SC S1 S2 E).
     rewrite Hd, Hdi. f_equal. apply remove_ignored_ext. exact Hi.
   Qed.
 
@@ -819,7 +821,7 @@ Section WasmFacts.
      configuration (get/set_lint_config), ignore list (export/import) and exported words — in any order —
      exports the same words and lints every text in both languages exactly as the first one does ---------- *)
   Theorem words_roundtrip_full dia cs ws :
-    amap_sorted curated -> raw_reads_choices_only ->
+    amap_sorted curated ->
     let st := fst (run (new curated dia) cs) in
     Permutation ws (export_words st) ->
     let st2 := fst (run (new curated dia)
@@ -827,7 +829,7 @@ Section WasmFacts.
     export_words st2 = export_words st /\ s_user st2 = s_user st /\ s_lint_dict st2 = s_lint_dict st
     /\ forall t lang, lint st2 t lang = lint st t lang.
   Proof.
-    intros SC HR st P st2.
+    intros SC st P st2.
     assert (synced st) as Sy by (apply run_synced; reflexivity).
     assert (dict_wf (s_user st)) as W.
     { apply (run_invariant (fun s => dict_wf (s_user s))); [exact step_dict_wf|apply dict_wf_nil]. }
